@@ -896,10 +896,22 @@ def grad_einsum(argnum, ans, operands_, kwargs):
 
 defvjp_argnum(anp.einsum, grad_einsum)
 
-defvjp(
-    anp.diagonal,
-    lambda ans, A, offset=0, axis1=0, axis2=1: lambda g: anp.make_diagonal(g, offset, axis1, axis2),
-)
+
+
+def grad_diagonal(ans, A, offset=0, axis1=0, axis2=1):
+    def vjp(g):
+        # make_diagonal (last two axes only) builds a square block; pad it to the last two dimensions of A
+        out = anp.make_diagonal(g, offset, axis1, axis2)
+        rows, cols = anp.shape(A)[-2:]
+        side = anp.shape(out)[-1]
+        if (rows, cols) != (side, side):
+            out = anp.pad(out, [(0, 0)] * (anp.ndim(out) - 2) + [(0, rows - side), (0, cols - side)], "constant")
+        return out
+
+    return vjp
+
+
+defvjp(anp.diagonal, grad_diagonal)
 defvjp(
     anp.make_diagonal,
     lambda ans, D, offset=0, axis1=0, axis2=1: lambda g: anp.diagonal(g, offset, axis1, axis2),
